@@ -169,6 +169,13 @@ func runC03(r *run) {
 				emit(caseT{"banspec", a})
 			}
 		}
+		// a sandboxed set and an unrestricted one over the SAME loader: what the unrestricted one
+		// compiled (or cached) is of no use to the sandboxed one
+		for fi, f := range []string{"verifprobe", "upper", "lower", "capfirst", "length", "title", "striptags"} {
+			for variant := 0; variant < 6; variant++ {
+				emit(caseT{"sharedloader", []string{hx(f), fmt.Sprint(variant), fmt.Sprint(fi)}})
+			}
+		}
 		// histories
 		nh := 500
 		maxLen := 8
@@ -228,7 +235,52 @@ func execBanSpec(r *run, c caseT) {
 	}
 }
 
+func execSharedLoader(r *run, c caseT) {
+	f := unhx(c.args[0])
+	var variant int
+	fmt.Sscanf(c.args[1], "%d", &variant)
+	files := map[string]string{"part.tpl": "{{ \"v\"|" + f + " }}", "lazy.tpl": "{% set n = \"part.tpl\" %}{% include n %}", "static.tpl": "{% include \"part.tpl\" %}",
+		"child.tpl": "{% extends \"part.tpl\" %}", "imp.tpl": "{% import \"lib.tpl\" zm %}{{ zm() }}", "lib.tpl": "{% macro zm() export %}{{ \"v\"|" + f + " }}{% endmacro %}", "ssi.tpl": "{% ssi \"part.tpl\" parsed %}"}
+	l := newMemLoader(files)
+	open, boxed := pongo2.NewSet("open", l), pongo2.NewSet("boxed", l)
+	_ = boxed.BanFilter(f)
+	entry := []string{"lazy.tpl", "static.tpl", "child.tpl", "imp.tpl", "ssi.tpl", "part.tpl"}[variant]
+	run := func(s *pongo2.TemplateSet, cached bool) string {
+		var t *pongo2.Template
+		var err error
+		if cached {
+			t, err = s.FromCache(entry)
+		} else {
+			t, err = s.FromFile(entry)
+		}
+		if err != nil {
+			return "cerr"
+		}
+		if _, err = t.Execute(nil); err != nil {
+			return "xerr"
+		}
+		return "ok"
+	}
+	var obs []string
+	for round := 0; round < 2; round++ {
+		obs = append(obs, run(open, round == 1), run(boxed, round == 1))
+	}
+	id := r.emit(c.op, c.args, "sharedloader:"+strings.Join(obs, ","))
+	r.nontrivial(c.args[0] + c.args[1])
+	if obs[0] != "ok" || obs[2] != "ok" {
+		r.reject(id, "the unrestricted set cannot render the control template", map[string]any{"entry": entry, "filter": f, "observed": obs})
+		return
+	}
+	if obs[1] == "ok" || obs[3] == "ok" {
+		r.reject(id, "a set that banned a filter rendered a template using it after another set over the same loader had compiled it", map[string]any{"entry": entry, "filter": f, "observed": obs})
+	}
+}
+
 func execC03(r *run, c caseT) {
+	if c.op == "sharedloader" {
+		execSharedLoader(r, c)
+		return
+	}
 	if c.op == "banspec" {
 		execBanSpec(r, c)
 		return
